@@ -416,3 +416,18 @@ Definition verdict23 (c : scase) : Util.verdict :=
    if holds c then (if known_D22 c then [22] else []) ++ (if known_204 c then [204] else []) ++ (if known_205 c then [205] else [])
    else dedupN (failing_classes c)).
 Definition report_C23 := run_report verdict23.
+
+(* ------------------------------------------------------------------------------------------ *)
+(* cases whose observation is the mirror model's own output (refutation witnesses stated inside Coq) *)
+Definition self_s (imports : list (N * N)) (funcs globals mems : list N) (ntypes : N) (exports : list N) (ndata target : N)
+                  (body : list fop) (ops : list sop) (plan : list probe) (entry exit : option (list fop * tg)) : scase :=
+  let c0 := mkSC imports funcs globals mems ntypes exports ndata target body ops plan entry exit [] false None None in
+  let '(s, rets, p) := srun_pref (sinit c0) ops [] in
+  match (if p then None else model_out c0 s) with
+  | Some o => mkSC imports funcs globals mems ntypes exports ndata target body ops plan entry exit rets p
+                   (Some (mo_fx o)) (Some (mo_layout o, mo_body o))
+  | None => mkSC imports funcs globals mems ntypes exports ndata target body ops plan entry exit rets p None None
+  end.
+Definition call_op (id : N) : fop := FOther (IDXB + 1 * KSH + id).
+Definition gget_op (id : N) : fop := FOther (IDXB + 2 * KSH + id).
+Definition msize_op (id : N) : fop := FOther (IDXB + 3 * KSH + id).
